@@ -94,7 +94,7 @@ version = "0.0.0"
 edition = "2021"
 
 [dependencies]
-strum = { path = "%s/strum", default-features = false, features = [%s] }
+strum = { path = "%s/strum", features = [%s] }
 
 [features]
 whitebox = []
